@@ -2003,9 +2003,13 @@ func main() {
 			last := append([]hLine(nil), users...)    // user lines of the content written last
 			lastCanary := canary
 			nVersions := 2 + r8.Intn(3)
+			fileGone := false
 			for v := 1; v <= nVersions && abandoned == ""; v++ {
-				if v > 1 && v < nVersions && r8.Intn(4) == 0 {
+				if v > 1 && v < nVersions && r8.Intn(4) == 0 && !fileGone {
 					// the operator removes the file: the goroutine clears the credentials
+					// (not twice in a row: there is nothing left to remove; removal / restoration
+					// cycles are the business of class http/auth-reload-cycle, round8.go)
+					fileGone = true
 					hook.arm("", nil)
 					if err := os.Remove(file); err != nil {
 						panic(err)
@@ -2073,6 +2077,7 @@ func main() {
 				hist = append(hist, vh.App("HsWrite", coqHFile(content), vh.N(2*v)))
 				histNotes = append(histNotes, fmt.Sprintf("v%d written: %d removed, %d changed, %d kept, %d added, %d malformed lines", v, len(removed), len(changedOld), len(kept), len(added), nBad))
 				install(content, v)
+				fileGone = false
 				if nBad > 0 {
 					select {
 					case <-hooksDone:
@@ -2534,6 +2539,10 @@ func main() {
 
 	// ---------------- 10. whole requests: every method, arbitrary header maps (gate.go) ----------------
 	gateRequests(run, up, dir)
+
+	// ---------------- 11. a tcp route with several targets; 12. a htpasswd file removed more than once (round8.go) ----------------
+	tcpRoutes(run)
+	reloadCycles(run, dir)
 
 	run.Finish(preamble, run.Scale(140, 700))
 }
